@@ -34,6 +34,7 @@ type Instance struct {
 	Msg    string `json:"msg"`
 	Status Status `json:"-"`
 	St     string `json:"status"`
+	N      int    `json:"cells,omitempty"` // weight: number of elementary obligations (cells) this instance stands for
 }
 
 type Rule struct {
@@ -169,17 +170,21 @@ func (c *Check) Finish() int {
 		sort.SliceStable(r.Inst, func(i, j int) bool { return r.Inst[i].Key < r.Inst[j].Key })
 		nsamp := 0
 		for _, in := range r.Inst {
+			w := 1
+			if in.N > 1 {
+				w = in.N
+			}
 			if in.Status != Info {
-				ev.Instances++
-				nobl++
+				ev.Instances += w
+				nobl += w
 			}
 			switch in.Status {
 			case OK:
-				ev.Discharged++
-				ndis++
+				ev.Discharged += w
+				ndis += w
 			case Exempt:
-				ev.Exempt++
-				ndis++
+				ev.Exempt += w
+				ndis += w
 			case Info:
 				ev.Info++
 				fmt.Printf("  info %s: %s %s\n", in.Pos, in.Rule, in.Msg)
